@@ -34,16 +34,27 @@ RULE = ("Hypothesis draws per-dimension boxes (symmetric / offset ~1 / offset up
         "differentiation-matrix call histories for one process (single call, orders 1..m increasing, m..1 decreasing, free "
         "sequences interleaving another box of the same size and the same box with another size, bounds respelled per call, "
         "returned matrices optionally overwritten by the caller), integer-dtype value / coefficient cores for integer data, "
-        "custom bases (Chebyshev/Legendre/monomial/func_basis at jittered nodes). "
+        "custom bases (Chebyshev/Legendre/monomial/func_basis at jittered nodes); LONG tensors: d 2..200(320), mostly 96+, rank 1..2 "
+        "(uniform / ragged), n_k 2..5, half-widths m*10^e with all e in -3..-2 / all in 2..3 / one uniform box at 1e-3 or 1e3 / any "
+        "order with a bounded running product / e = 0, boxes symmetric, [0, w], offset ~1, offset up to 1.9e3 widths, integer bounds, "
+        "polynomials positive (T_0-dominated), signed rank-1, signed rank-2; a 'density' whose coefficient magnitudes compensate the "
+        "widths dimension by dimension (running integral O(2^+-48), while prod (b-a)/2 and the reference-cube integral alone leave "
+        "the double range) for func_sum, and the same polynomial balanced to O(1) values for func_get (inside points, one point "
+        "outside in a single late coordinate), func_int / func_gets entries and, where the widths allow, func_sum. "
         "Oracle = numpy.polynomial.chebyshev reference of the generating polynomial with a derived rounding bound. "
         "Non-trivial = TT-rank >= 2 or a non-symmetric box or a new grid size != n (tt/dense), rank >= 2 or two different "
-        "operands (linear), n >= 3 (diff), rank >= 2 or per-core nodes or a non-Chebyshev basis (general); distinct by SHA-1.")
+        "operands (linear), n >= 3 (diff), rank >= 2 or per-core nodes or a non-Chebyshev basis (general), d >= 50 with both a "
+        "func_sum and a func_get comparison inside the applicability guard (long); distinct by SHA-1.")
 TOLERANCES = ("values: |got-ref| <= [32(d+sum r) + sum_k n_k^2 (8 kappa_k + 48)] * eps * scale, scale = chain product of "
               "sum_j |C_k[:, j, :]| (abs-majorant of every value, |T_j| <= 1, |T_j'| <= j^2, point->t map loses "
               "(4 kappa + 8) eps); coefficient tensors and integrals: the same with kappa = 0 (integral times prod (b-a)); "
               "D_j y: 64 eps n^(2j+1) (2/(b-a))^j sum|c| (||D_j||_inf <= n^(2j)); fill value: bit-for-bit; arbitrary-Y "
               "transform pairs: 32(d+sum r+8 n) eps * dense of per-core l1 majorants; custom bases: 64 eps d n^2 cond(H) * "
-              "prod ||C_k||_F ||phi(x_k)||_2")
+              "prod ||C_k||_F ||phi(x_k)||_2; long tensors: the value is a product R_1..R_d of per-dimension matrices (exact 1-D "
+              "integrals times (b-a)/2, series values, coefficient slices) multiplied dimension by dimension; |got-ref| <= 2 eps sum_k "
+              "|R_1|..|R_{k-1}| (K_k M_k) |R_{k+1}|..|R_d| with M_k = sum_j |C_k[:, j, :]| (times (b-a) for integrals) >= |R_k| and "
+              "K_k = 32(1+r_k+r_{k+1}) + n_k^2 (8 kappa_k + 48) (+48 m_k on a new grid): first-order perturbation bound, relative "
+              "~ d K eps for cancellation-free chains, factor 2 for higher orders (sum_k K_k eps < 1e-9)")
 ASSUMPTIONS = ["mode sizes n_k >= 2 and new grid sizes m_k >= 2 (a one-node Chebyshev grid is undefined)",
                "d >= 2 for the TT routines, d >= 1 for the dense ones",
                "box offset ratio kappa = max(|a|,|b|)/(b-a) <= 2e3, widths 6e-4..4e3",
@@ -57,6 +68,10 @@ ASSUMPTIONS = ["mode sizes n_k >= 2 and new grid sizes m_k >= 2 (a one-node Cheb
                "'outside' = beyond a bound by >= 1 ulp of a non-zero bound or by >= 1e-6 (b-a); membership decided by float comparison",
                "with skip_out=False (explicit, or defaulted because a/b is None) nothing is asserted about outside points",
                "custom bases follow the library-wide convention basis(x) -> [functions, points]; square systems with cond <= 1e4",
+               "long tensors: a comparison is made only if every partial product |R_1|..|R_k| and |R_k|..|R_d| of the reference chain and every "
+               "per-dimension majorant lies in [1e-200, 1e200] (then any dimension-by-dimension evaluation order stays representable); true values "
+               "that need an out-of-range intermediate in every sweep order are generated (func_sum of the O(1)-valued polynomial on small / large "
+               "boxes) but nothing is asserted about them beyond 'does not raise'",
                "numpy.polynomial and LAPACK reference arithmetic is correct"]
 
 _STAT = {}          # max observed error/tolerance ratio per comparison (diagnostic only, never read by a check)
@@ -171,7 +186,7 @@ HOWS_INT_UNIFORM = ["int_scalar", "int_scalar"]
 def eff_how(vals, how):
     """The drawn spelling, or its float fallback when the bounds are not integer-valued (keeps shrunk cases in-domain)."""
     if how in INT_HOWS and not is_int_valued(vals):
-        return INT_HOWS[how]
+        how = INT_HOWS[how]
     if how in ("scalar", "np_float64", "int_scalar") and len(set(float(v) for v in vals)) != 1:
         return "list"
     return how
@@ -945,10 +960,276 @@ def prop_general(case, ctx):
           "func_get(funcs=basis) vs the generating function", cond_H=cond)
 
 
+# ------------------------------------------------------------------------------------------- long tensors (d up to 200+)
+#
+# "for all boxes [a, b] ... all d >= 2": a long tensor on a box whose half-widths are all far from 1, with per-dimension
+# coefficient magnitudes that compensate (a density ~ prod_k g_k(x_k) / w_k), has an ordinary integral although neither
+# the integral over the reference cube nor the volume factor prod (b-a)/2 is representable on its own.  No dense
+# reference exists for such d: every reference below is a chain of small per-dimension matrices multiplied left to
+# right (dimension by dimension), with an applicability guard that all partial products stay far inside the double range.
+
+LONG_W = ["small", "small", "large", "large", "small_u", "large_u", "walk", "unit"]
+LONG_OFF = ["sym", "lo0", "off1", "far", "mixed", "int"]
+LONG_POLY = ["pos", "pos", "pos", "signed_rank1", "signed"]
+LONG_LO, LONG_HI = 1e-200, 1e200
+
+
+@st.composite
+def long_cases(draw, tier):
+    d_hi = 200 if tier == "quick" else 320
+    d = draw(st.one_of(st.integers(96, d_hi), st.integers(96, d_hi), st.integers(150, d_hi), st.integers(2, 95)))
+    pool = HOWS_ANY + HOWS_ANY_UNIFORM + HOWS_INT + HOWS_INT_UNIFORM          # degraded by eff_how where not applicable
+    how = draw(st.sampled_from(pool))
+    return {"d": d, "rank": draw(st.integers(1, 2)), "ragged": draw(st.booleans()), "n_max": draw(st.integers(2, 5)),
+            "n_uniform": draw(st.booleans()), "poly": draw(st.sampled_from(LONG_POLY)), "wcls": draw(st.sampled_from(LONG_W)),
+            "off": draw(st.sampled_from(LONG_OFF)), "how": how, "how_b": draw(st.sampled_from(pool)) if draw(st.integers(0, 2)) == 0 else how,
+            "jit": draw(st.integers(0, 2)), "npts": draw(st.integers(1, 3)), "x_list": draw(st.booleans()),
+            "z": draw(st.sampled_from([0.0, -2.5, float("nan")])), "m_how": draw(st.sampled_from(["none", "list", "array", "int"])),
+            "seed": draw(gen.seeds)}
+
+
+def long_box(case, rng):
+    d, wcls, off = int(case["d"]), case["wcls"], case["off"]
+    if wcls in ("small_u", "large_u"):
+        e = np.full(d, -3 if wcls == "small_u" else 3)
+        mant = np.full(d, rng.uniform(0.5, 2.0))
+    else:
+        mant = rng.uniform(0.5, 2.0, size=d)
+        if wcls == "small":
+            e = rng.integers(-3, -1, size=d)
+        elif wcls == "large":
+            e = rng.integers(2, 4, size=d)
+        elif wcls == "unit":
+            e = np.zeros(d, dtype=int)
+        else:                                   # widths 1e-3 .. 1e3 in any order, the running product of half-widths within 1e+-30
+            e = rng.integers(-3, 4, size=d)
+            cum = 0
+            for k in range(d):
+                if abs(cum + e[k]) > 30:
+                    e[k] = -e[k]
+                cum += e[k]
+    h = mant * 10.0 ** e
+    uniform = wcls in ("small_u", "large_u")
+    if off == "sym":
+        kap = np.zeros(d)
+    elif off == "lo0":
+        kap = np.ones(d)
+    elif off == "off1":
+        kap = np.full(d, rng.uniform(-3.0, 3.0)) if uniform else rng.uniform(-3.0, 3.0, size=d)
+    elif off == "far":
+        kap = (np.full(d, rng.uniform(100.0, 1900.0)) if uniform else rng.uniform(100.0, 1900.0, size=d)) * rng.choice([-1.0, 1.0])
+    elif off == "int":
+        kap = np.full(d, float(rng.integers(-2, 3))) if uniform else rng.integers(-2, 3, size=d).astype(float)
+    else:
+        kap = np.where(rng.integers(0, 2, size=d) == 0, 0.0, rng.uniform(-3.0, 3.0, size=d))
+        if uniform:
+            kap = np.full(d, kap[0])
+    a, b = kap * h - h, kap * h + h
+    if off == "int" and wcls in ("large", "large_u"):          # integer bounds: int spellings of a / b apply
+        a, b = np.round(a), np.round(b)
+    return [float(v) for v in a], [float(v) for v in b]
+
+
+def long_poly(case, rng, n, r):
+    P = []
+    for k, nk in enumerate(n):
+        sh = (r[k], nk, r[k + 1])
+        if case["poly"] == "pos":               # T_0 coefficient dominates: positive on the box, positive integral
+            G = rng.uniform(-1.0, 1.0, size=sh) * (0.4 / (nk - 1))
+            G[:, 0, :] = rng.uniform(0.6, 1.4, size=(sh[0], sh[2]))
+            G /= sh[2]
+        else:
+            G = rng.uniform(-1.0, 1.0, size=sh)
+        P.append(G)
+    return P
+
+
+def int_mats(C):
+    """Per-dimension integrals over [-1, 1] of the matrix-valued Chebyshev series: list of (r_k, r_{k+1})."""
+    out = []
+    for Ck in C:
+        ci = npcheb.chebint(np.transpose(Ck, (1, 0, 2)), axis=0)
+        out.append(npcheb.chebval(1.0, ci) - npcheb.chebval(-1.0, ci))
+    return out
+
+
+def balance(F, jit):
+    """Exponents x_k such that the running product of F_k * 2**x_k has max-norm 2**(walk_k) (bounded walk |.| <= 48)."""
+    x = []
+    v = np.ones((1, 1))
+    cum = 0
+    for Fk, jk in zip(F, jit):
+        jk = int(jk)
+        if abs(cum + jk) > 48:
+            jk = -jk
+        cum += jk
+        w = v @ Fk
+        nrm = float(np.max(np.abs(w)))
+        e = -int(math.floor(math.log2(nrm))) if (nrm > 0 and math.isfinite(nrm)) else 0
+        v = np.ldexp(w, e)
+        x.append(e + jk)
+    return x
+
+
+def chain_ref(R, M, K):
+    """Product R_1 ... R_d of per-dimension matrices, multiplied dimension by dimension; first-order rounding bound
+    2 eps sum_k |R_1|..|R_{k-1}| (K_k M_k) |R_{k+1}|..|R_d| (M_k >= |R_k| entrywise majorises factor k and its error,
+    K_k counts the operations that produce it and the matrix product that absorbs it); in_range = every partial
+    product from the left and from the right, and every majorant, lies in [1e-200, 1e200]."""
+    d = len(R)
+    with np.errstate(all="ignore"):
+        L = [np.ones((1, 1))]
+        for Rk in R:
+            L.append(L[-1] @ np.abs(Rk))
+        S = [np.ones((1, 1))]
+        for Rk in reversed(R):
+            S.append(np.abs(Rk) @ S[-1])
+        S = S[::-1]                             # S[k] = |R_{k+1}| ... |R_d|
+        v = np.ones((1, 1))
+        for Rk in R:
+            v = v @ Rk
+        tol = 0.0
+        for k in range(d):
+            tol += float((L[k] @ (K[k] * M[k]) @ S[k + 1])[0, 0])
+        tol *= 2.0 * EPS
+        mags = [float(np.max(x)) for x in L] + [float(np.max(x)) for x in S] + [float(np.max(x)) for x in M]
+    ok = all(LONG_LO <= m <= LONG_HI for m in mags) and math.isfinite(tol) and math.isfinite(float(v[0, 0]))
+    return float(v[0, 0]), tol, ok
+
+
+def tt_entry(Y, J):
+    v = np.ones((1, 1))
+    for G, j in zip(Y, J):
+        v = v @ G[:, int(j), :]
+    return float(v[0, 0])
+
+
+def prop_long(case, ctx):
+    d = int(case["d"])
+    rng = np.random.default_rng(case["seed"])
+    n = [int(case["n_max"])] * d if case["n_uniform"] else [int(v) for v in rng.integers(2, int(case["n_max"]) + 1, size=d)]
+    if case["rank"] == 1 or case["poly"] == "signed_rank1":
+        r = [1] * (d + 1)
+    elif case["ragged"]:
+        r = [1] + [int(v) for v in rng.integers(1, 3, size=d - 1)] + [1]
+    else:
+        r = [1] + [2] * (d - 1) + [1]
+    a, b = long_box(case, rng)
+    how, how_b = case["how"], case["how_b"]
+    h = [(bk - ak) / 2.0 for ak, bk in zip(a, b)]
+    kap = kappa_of(a, b)
+    P = long_poly(case, rng, n, r)
+    jit = rng.integers(-int(case["jit"]), int(case["jit"]) + 1, size=(2, d))
+    Kc = [32.0 * (1 + r[k] + r[k + 1]) + 48.0 * n[k] * n[k] for k in range(d)]                       # coefficients, integrals
+    Kp = [Kc[k] + 8.0 * kap[k] * n[k] * n[k] for k in range(d)]                                      # values at points
+    nodes = [cheb_nodes(nk) for nk in n]
+    ctx.label(f"d~{min(d // 50 * 50, 200)}+", "rank>=2" if max(r) >= 2 else "rank1", "poly:" + case["poly"], "widths:" + case["wcls"],
+              "offset:" + case["off"], "spell_a:" + eff_how(a, how), "spell_b:" + eff_how(b, how_b))
+    asserted = []
+
+    def agree(got, R, M, K, what, **kw):
+        ref, tol, ok = chain_ref(R, M, K)
+        if not ok:
+            ctx.label(what.split(":")[0] + ":out_of_range_unasserted")
+            return False
+        ctx.label(what.split(":")[0] + (":tight" if tol <= 1e-6 * abs(ref) else ":loose"))
+        close(ctx, got, ref, tol, what, d=d, **kw)
+        asserted.append(what.split(":")[0])
+        return True
+
+    # ---- the density: coefficient magnitudes compensate the widths, int_box p = O(1)
+    WP = int_mats(P)
+    xI = balance(WP, jit[0])
+    D = [P[k] * (2.0 ** xI[k] / h[k]) for k in range(d)]
+    RI = [W * h[k] for k, W in enumerate(int_mats(D))]
+    MI = [np.abs(D[k]).sum(axis=1) * (2.0 * h[k]) for k in range(d)]
+    YD = value_cores(D, nodes)
+    a_arg, b_arg = spell(a, how), spell(b, how_b)
+    AD = ctx.lib(teneva.func_int, YD)
+    why = oracle.wellformed(AD, n)
+    ctx.check(why is None, f"func_int (long tensor): not a well-formed TT-tensor of the input shape: {why}", d=d)
+    with np.errstate(all="ignore"):
+        got = ctx.lib(teneva.func_sum, AD, a_arg, b_arg)
+    ctx.check(np.ndim(got) == 0, "func_sum (long tensor): not a scalar", got=repr(got))
+    agree(got, RI, MI, Kc, "func_sum(func_int(Y)) of a long density: vs the per-dimension chain of exact integrals",
+          widths=case["wcls"], h_min=min(h), h_max=max(h))
+    with np.errstate(all="ignore"):
+        got = ctx.lib(teneva.func_sum, [G.copy() for G in D], spell(a, how), spell(b, how_b))
+    agree(got, RI, MI, Kc, "func_sum(coefficients) of a long density: vs the per-dimension chain of exact integrals",
+          widths=case["wcls"], h_min=min(h), h_max=max(h))
+
+    # ---- the same polynomial with O(1) values: evaluation, re-sampling, coefficients; its integral where representable
+    U0 = rng.uniform(0.0, 1.0, size=(int(case["npts"]), d))
+    edge = rng.integers(0, 12, size=U0.shape)
+    U0 = np.where(edge == 0, 0.0, np.where(edge == 1, 1.0, U0))
+    X = np.array([[min(max(a[k] + (b[k] - a[k]) * u, a[k]), b[k]) for k, u in enumerate(row)] for row in U0], dtype=float)
+    T = scaled_points(X, a, b)
+    Mt = [series_at(P[k], T[:, k]) for k in range(d)]                          # (m, r1, r2)
+    xV = balance([Mt[k][0] for k in range(d)], jit[1])
+    U = [P[k] * 2.0 ** xV[k] for k in range(d)]
+    MV = [np.abs(U[k]).sum(axis=1) for k in range(d)]
+    YU = value_cores(U, nodes)
+    AU = ctx.lib(teneva.func_int, YU)
+    why = oracle.wellformed(AU, n)
+    ctx.check(why is None, f"func_int (long tensor): not a well-formed TT-tensor of the input shape: {why}", d=d)
+
+    z = float(case["z"])
+    kout = int(rng.integers(0, d))
+    Xo = X[0].copy()
+    Xo[kout] = b[kout] + 0.5 * (b[kout] - a[kout]) if rng.integers(0, 2) else a[kout] - 1e-3 * (b[kout] - a[kout])
+    Xall = np.vstack([X, Xo[None, :]])
+    Xarg = Xall.tolist() if case["x_list"] else Xall
+    with np.errstate(all="ignore"):
+        got = np.asarray(ctx.lib(teneva.func_get, Xarg, AU, spell(a, how), spell(b, how_b), z))
+    ctx.check(got.shape == (len(Xall),), "func_get (long tensor): result shape", got=got.shape)
+    for i in range(len(X)):
+        agree(got[i], [Mt[k][i] * 2.0 ** xV[k] for k in range(d)], MV, Kp, "func_get of a long interpolant: vs the per-dimension chain of series values",
+              point=i)
+    ctx.check(same_fill(got[-1], z), "func_get (long tensor): a point outside the box in one coordinate did not receive the fill value",
+              coordinate=kout, x=float(Xo[kout]), a=a[kout], b=b[kout], got=float(got[-1]), z=z)
+
+    # entries of the coefficient tensor (all-T_0 entry and a few sparse ones) and of the re-sampled tensors
+    Js = [[0] * d]
+    for _ in range(2):
+        J = [0] * d
+        for k in rng.integers(0, d, size=3):
+            J[int(k)] = int(rng.integers(0, n[int(k)]))
+        Js.append(J)
+    for J in Js:
+        agree(tt_entry(AU, J), [U[k][:, J[k], :] for k in range(d)], MV, Kc, "func_int of long data: entry of the coefficient tensor", J_nonzero=[(k, j) for k, j in enumerate(J) if j])
+    m_how = case["m_how"]
+    if m_how == "none":
+        mm = list(n)
+    elif m_how == "int":
+        mm = [int(rng.integers(2, 7))] * d
+    else:
+        mm = [int(v) for v in rng.integers(2, 7, size=d)]
+    Z = ctx.lib(teneva.func_gets, AU, m_spell(mm, m_how))
+    why = oracle.wellformed(Z, mm)
+    ctx.check(why is None, f"func_gets (long tensor): not a well-formed TT-tensor of shape m: {why}", d=d)
+    Km = [Kc[k] + 48.0 * mm[k] for k in range(d)]
+    for _ in range(2):
+        J = [int(rng.integers(0, mk)) for mk in mm]
+        R = [series_at(U[k], [math.cos(math.pi * J[k] / (mm[k] - 1))])[0] for k in range(d)]
+        agree(tt_entry(Z, J), R, MV, Km, "func_gets of a long interpolant: entry of the re-sampled tensor")
+
+    # integral of the O(1)-valued polynomial: representable only if the widths multiply to something moderate
+    with np.errstate(all="ignore"):
+        got = ctx.lib(teneva.func_sum, AU, spell(a, how), spell(b, how_b))
+    agree(got, [WP[k] * 2.0 ** xV[k] * h[k] for k in range(d)], [MV[k] * (2.0 * h[k]) for k in range(d)], Kc,
+          "func_sum of a long O(1)-valued interpolant: vs the per-dimension chain of exact integrals", widths=case["wcls"])
+
+    far = sum(abs(math.log10(v)) for v in h) > 320.0             # prod (b-a)/2 alone is not representable
+    if far:
+        ctx.label("volume_factor_alone_out_of_range")
+    ctx.nontrivial(d >= 50 and any(s.startswith("func_sum") for s in asserted) and any(s.startswith("func_get") for s in asserted))
+
+
 SUBCHECKS = [
     Sub("tt", prop_tt, strategy=tt_cases, quick=120, thorough=2000),
     Sub("dense", prop_dense, strategy=dense_cases, quick=90, thorough=1500),
     Sub("linear", prop_linear, strategy=linear_cases, quick=120, thorough=2000),
     Sub("diff", prop_diff, strategy=diff_cases, quick=150, thorough=3000),
     Sub("general", prop_general, strategy=general_cases, quick=120, thorough=2500),
+    Sub("long", prop_long, strategy=long_cases, quick=24, thorough=300),
 ]
